@@ -68,6 +68,14 @@ SCENARIOS = {
         ["write", "a.txt", "2\n"], ["git", "add", "-A"], ["git", "commit", "-q", "-m", "fix the thing"],
         ["stg", "uncommit", "-n", "2"], ["stg", "series", "-a"], ["stg", "commit", "-a"],
         ["stg", "uncommit", "--to", "HEAD~2"]],
+    "edit-unapplied-and-hidden": [
+        ["stg", "new", "-m", "one", "p1"], ["write", "a.txt", "1\n"], ["stg", "refresh"],
+        ["stg", "new", "-m", "two", "p2"], ["write", "b.txt", "1\n"], ["stg", "refresh"],
+        ["stg", "new", "-m", "three", "p3"], ["write", "c.txt", "1\n"], ["stg", "refresh"],
+        ["stg", "pop", "-n", "2"], ["stg", "hide", "p3"],
+        ["stg", "edit", "-m", "two, reworded", "p2"], ["stg", "edit", "-m", "two, reworded again", "p2"],
+        ["stg", "edit", "--author", "Some One <so@example.com>", "p3"], ["stg", "edit", "-m", "three again", "p3"],
+        ["stg", "delete", "p2"], ["stg", "unhide", "p3"], ["stg", "delete", "p3"], ["stg", "undo"], ["stg", "undo"]],
     "new-derived-names-with-hidden": [
         ["stg", "new", "-m", "Fix the thing"], ["stg", "hide", "fix-the-thing"], ["stg", "new", "-m", "Fix the thing"],
         ["stg", "pop"], ["stg", "new", "-m", "fix THE thing"], ["stg", "series", "-a"], ["stg", "unhide", "fix-the-thing"]],
